@@ -8,6 +8,9 @@ import json, os, shutil, subprocess, sys, tempfile, xml.etree.ElementTree as ET
 pid, n = sys.argv[1], sys.argv[2]
 src = "/tmp/mutwt"
 d = os.path.join(src, pid, "deliver", n)
+name = "%s-%s" % (pid, n)
+if len(sys.argv) > 4:            # seed_intake.py <Cxx> <n> <deliver dir> <name>
+    d, name = os.path.join(sys.argv[3], n), sys.argv[4]
 patch = os.path.join(d, "patch.diff")
 out = {"property": pid, "source": "independent sub-agent (property text + scratch worktree only)", "n": n}
 tmp = tempfile.mkdtemp(prefix="vfseed-", dir="/var/tmp")
@@ -43,7 +46,7 @@ try:
                        "lines": lines[:12]}
     print(json.dumps(out, indent=1)[:3000])
     if ok:
-        dst = os.path.join("/verif/seeded", "%s-%s" % (pid, n))
+        dst = os.path.join("/verif/seeded", name)
         os.makedirs(dst, exist_ok=True)
         for f in ("patch.diff", "demo.py", "notes.md"):
             if os.path.exists(os.path.join(d, f)):
